@@ -420,3 +420,41 @@ REG.contract(
          "in this output, inside the bytes this call wrote, and never above 0x3FFF; existing entries are never changed; a "
          "pointer is packed from a table value, which the table invariant keeps within 14 bits (struct.pack range obligation)",
 )
+
+# ----------------------------------------------------------------------------- C01-P3: label text
+REG.contract(
+    "dns.name._escapify",
+    params={"label": T.bytes},
+    raises=[],
+    returns=T.str,
+    loops={0: loop(index="idx", invariant=["text == esc_name(label, idx)"])},
+    ensures=["result == esc_name(label, len(label))"],
+    props=["C01", "C05"],
+    note="bytes branch: the text of a label is the concatenation of the RFC 1035 5.1 escape of each octet "
+         "(the set of backslash-quoted octets is fixed by the specification, not read from the code)",
+)
+
+# ----------------------------------------------------------------------------- C01-P4: per-octet text step lemmas
+# The body of from_text's character loop, run over the 1, 2 or 4 characters that _escapify emits
+# for one octet c, appends exactly c to the current label, leaves the state machine idle, appends
+# no label and raises nothing.  With the _escapify contract and A-fold this is the induction step
+# of from_text(to_text(n)) == n for every octet value.
+_STATE = {"labels": T.list_of(T.bytes), "label": T.bytes, "escaping": T.bool, "edigits": T.int, "total": T.int}
+_IDLE = ["not escaping"]
+_POST = ["label == old_label + bytes([octet])", "not escaping", "len(labels) == len(old_labels)"]
+_SPECIAL = "(octet == 34 or octet == 40 or octet == 41 or octet == 46 or octet == 59 or octet == 92 or octet == 64 or octet == 36)"
+REG.step_lemma("from_text_octet_quoted", target="dns.name.from_text", loop=0, params={"octet": T.u8}, state=_STATE,
+               requires=_IDLE + [_SPECIAL], elements=["92", "octet"], ensures=_POST, props=["C01", "C05"],
+               note="a backslash-quoted special octet (\" ( ) . ; \\ @ $) is read back as that octet and does not end the label")
+REG.step_lemma("from_text_octet_plain", target="dns.name.from_text", loop=0, params={"octet": T.u8}, state=_STATE,
+               requires=_IDLE + [f"not {_SPECIAL}", "octet > 0x20 and octet < 0x7F"], elements=["octet"], ensures=_POST, props=["C01", "C05"],
+               note="a printable octet that needs no escape is read back as itself")
+REG.step_lemma("from_text_octet_decimal", target="dns.name.from_text", loop=0, params={"octet": T.u8}, state=_STATE,
+               requires=_IDLE + ["octet <= 0x20 or octet >= 0x7F"], elements=["92", "48 + octet // 100", "48 + (octet // 10) % 10", "48 + octet % 10"],
+               ensures=_POST, props=["C01", "C05"],
+               note="a \\DDD escape of any octet 0..255 is read back as that octet")
+REG.step_lemma("from_text_label_separator", target="dns.name.from_text", loop=0, params={}, state=_STATE,
+               requires=_IDLE + ["len(label) > 0"], elements=["46"],
+               ensures=["len(labels) == len(old_labels) + 1", "labels[len(labels) - 1] == old_label", "label == b''", "not escaping",
+                        "all(labels[k] == old_labels[k] for k in range(len(old_labels)))"],
+               props=["C01"], note="an unescaped dot ends a non-empty label and starts an empty one")
